@@ -55,6 +55,10 @@ def generate(prop, rng, index, tier):
         if spec["package"]:
             for s in rng.sample(["sub", "io", "extra", "_legacy"], rng.randint(1, 2)):
                 spec["subs"].append({"name": s, "commands": _cmds(rng, 1)})
+            if rng.random() < 0.3 and not any(u.get("flaky") for u in universe):
+                # a sub-package that needs an optional dependency: importing it fails until the dependency is installed
+                spec["subs"].append({"name": "opt", "commands": _cmds(rng, 1), "pkg": True, "flaky": True})
+                spec["flaky"] = True
         universe.append(spec)
     # a library whose name differs from a dotted sub-library name only in the dot (lib_sub / libxsub next to lib.sub)
     for spec in list(universe):
@@ -68,7 +72,10 @@ def generate(prop, rng, index, tier):
         mods.append(spec["name"])
         for s in spec["subs"]:
             mods.append(spec["name"] + "." + s["name"])
-    tops = [s["name"] for s in universe]
+    flaky = {s["name"] for s in universe if s.get("flaky")}
+    mods = [m for m in mods if not any(m == f + ".opt" for f in flaky)]
+    tops_all = [s["name"] for s in universe]
+    tops = [t for t in tops_all if t not in flaky]     # (LOAD / BUILTIN / CLI requests leave the flaky package alone)
     ops = []
     for _ in range(rng.randint(3, 12)):
         r = rng.random()
@@ -77,7 +84,7 @@ def generate(prop, rng, index, tier):
         elif r < 0.34:
             ops.append(["DEFINE", rng.choice(mods), rng.choice(["Late", "Later"]), rng.choice(CMD_NAMES[:7] + ("Zed",))])
         elif r < 0.72:
-            libs = rng.sample(tops, rng.randint(1, min(3, len(tops))))
+            libs = rng.sample(tops_all, rng.randint(1, min(3, len(tops_all))))
             if rng.random() < 0.3 and any(s["package"] for s in universe):
                 pk = rng.choice([s for s in universe if s["package"]])
                 libs = [pk["name"] + "." + rng.choice(pk["subs"])["name"]]
@@ -97,14 +104,19 @@ def generate(prop, rng, index, tier):
             ops.append(["LOAD", libs, rng.choice(defined) if rng.random() < 0.75 else rng.choice(CMD_NAMES[:7])])
         elif r < 0.94:
             cfg = rng.choice(["csv", "netcdf"])
-            libs = rng.sample(tops, rng.randint(0, 1))
+            libs = rng.sample(tops, rng.randint(0, min(1, len(tops))))
             ops.append(["BUILTIN", cfg, libs, rng.random() < 0.5])
         else:
             # the command-line tool invoked in this process (as an embedding application or a test runner would)
-            libs = rng.sample(tops, rng.randint(0, 2))
+            libs = rng.sample(tops, rng.randint(0, min(2, len(tops))))
             defined = [c[1] or c[0] for sp in universe if sp["name"] in libs for c in sp["commands"]]
             name = rng.choice(defined) if defined and rng.random() < 0.7 else rng.choice(CMD_NAMES[:7])
             ops.append(["CLI", rng.choice(["csv", "netcdf"]), libs, name])
+    for f in sorted(flaky):
+        if rng.random() < 0.7:
+            ops.insert(rng.randint(0, len(ops)), ["INSTALL", f])       # the dependency arrives at some point
+        if rng.random() < 0.7:
+            ops.insert(rng.randint(0, len(ops)), ["PROGRAM", [f] if rng.random() < 0.7 else [f + ".opt"]])
     # the same request repeated at another point of the history
     progs = [op for op in ops if op[0] == "PROGRAM"]
     if progs and rng.random() < 0.6:
@@ -128,6 +140,11 @@ class {cls}(Command):
         return type(self).TAG
 '''
 
+
+FLAKY_TMPL = '''import os
+if not os.path.exists(os.path.join(os.path.dirname(__file__), "DEP_INSTALLED")):
+    raise ImportError("the optional dependency of %s is not installed" % __name__)
+'''
 
 SUBCLASS_TMPL = '''
 from mpilot.libraries.eems.basic import {base} as _Base{base}
@@ -156,6 +173,11 @@ def _write_universe(root, universe):
             with open(os.path.join(d, "__init__.py"), "w") as f:
                 f.write(body)
             for s in spec["subs"]:
+                if s.get("pkg"):
+                    os.makedirs(os.path.join(d, s["name"]))
+                    with open(os.path.join(d, s["name"], "__init__.py"), "w") as f:
+                        f.write(FLAKY_TMPL + MODULE_TMPL + "".join(_class_src(*c) for c in s["commands"]))
+                    continue
                 with open(os.path.join(d, s["name"] + ".py"), "w") as f:
                     f.write(MODULE_TMPL + "".join(_class_src(*c) for c in s["commands"]))
         else:
@@ -304,6 +326,16 @@ def _run_history(sc, res, log, Program, MPilotError, mc, importlib):
             names.setdefault(name, mod)
         return names, dups
 
+    flaky = {s["name"] for s in sc["universe"] if s.get("flaky")}
+    installed = set()
+
+    def needs_missing_dependency(libs):
+        for lib in libs:
+            top = lib.split(".")[0]
+            if top in flaky and top not in installed and lib in (top, top + ".opt"):
+                return True
+        return False
+
     imported = set()
 
     def note_import(mod):
@@ -313,6 +345,21 @@ def _run_history(sc, res, log, Program, MPilotError, mc, importlib):
 
     def check_program(libs, builtin=None, label="PROGRAM"):
         libs_all = tuple(BUILTIN[builtin]) + tuple(libs) if builtin else tuple(libs)
+        if needs_missing_dependency(libs_all) and "nolib_zz" not in libs_all:
+            # part of a requested library cannot be imported yet: the request fails (how is not this property's business),
+            # it is never answered with the part that could be loaded
+            try:
+                Program(libraries=libs_all)
+                res.violate("C19.lookup", "C19.lookup partial-library-accepted",
+                            "Program(libraries=%r) was constructed although a sub-package of a requested library cannot "
+                            "be imported" % (libs_all,))
+            except Exception as exc:  # noqa
+                log.emit("program", libs=list(libs_all), ok=False, exc=type(exc).__name__)
+            for lib in libs_all:
+                if lib in static:
+                    note_import(lib)
+            res.probe("request while a sub-package of the library cannot be imported")
+            return None
         if "nolib_zz" in libs_all:
             # a requested library is not installed: construction fails (how is not this property's business); what was
             # imported before the failure stays imported, and later requests must be answered as always
@@ -432,6 +479,13 @@ def _run_history(sc, res, log, Program, MPilotError, mc, importlib):
             exec(_class_src(op[2], op[3] if op[3] != op[2] else None), mod.__dict__)
             dynamic.append((op[1], op[3]))
             res.probe("class defined later inside a library module")
+        elif op[0] == "INSTALL":
+            with open(os.path.join(os.environ["MPSIM_REG_ROOT"], op[1], "opt", "DEP_INSTALLED"), "w") as f:
+                f.write("ok\n")
+            importlib.invalidate_caches()
+            installed.add(op[1])
+            log.emit("install", pkg=op[1])
+            res.probe("optional dependency of a sub-package installed during the history")
         elif op[0] == "PROGRAM":
             check_program(op[1])
         elif op[0] == "BUILTIN":
